@@ -37,7 +37,7 @@ def msg(e):
 def planted(rng):
     bad = rng.choice(BAD)
     reach = rng.choice([True, False])
-    kind = rng.choice(['condition', 'repeat', 'switch', 'define-unused', 'nested'])
+    kind = rng.choice(['condition', 'repeat', 'switch', 'define-unused', 'nested', 'two-sites', 'two-sites'])
     if kind == 'condition':
         src = '<div><p tal:condition="flag">${%s}</p>tail</div>' % bad
         vars_ = [['flag', reach]]
@@ -50,6 +50,14 @@ def planted(rng):
     elif kind == 'define-unused':
         src = '<div tal:condition="flag" tal:define="z 1"><i tal:define="y %s">x</i></div>after' % bad
         vars_ = [['flag', reach]]
+    elif kind == 'two-sites':
+        # the same invalid text at two sites: the error raised must be the one of the site that is reached
+        f1, f2 = rng.choice([(True, True), (False, True), (True, False), (False, False)])
+        src = '<div>\n<p tal:condition="f1">${%s}</p>\n  <i tal:condition="f2" tal:content="%s">x</i></div>' % (bad, bad)
+        vars_ = [['f1', f1], ['f2', f2]]
+        reach = f1 or f2
+        off = src.index(bad) if f1 else src.rindex(bad)
+        return {'src': src, 'vars': vars_, 'objs': [], 'pyoracle': [[bad, msg(bad)]]}, bad, (src.index(bad), off), reach, kind
     else:
         src = 'é\n<div tal:condition="flag">\n  <p title="${%s}">x</p></div>' % bad
         vars_ = [['flag', reach]]
@@ -106,9 +114,10 @@ def oracle(ctx):
         nt += 1
         hist[(kind, reach)] = hist.get((kind, reach), 0) + 1
         inp = {'src': case['src'], 'vars': case['vars'], 'reached': reach}
-        if not (rs.get('exc') == 'TemplateError' and rs.get('cls') == 'ExpressionError' and rs.get('token') == bad and rs.get('offset') == off):
+        strict_off, off = off if isinstance(off, tuple) else (off, off)
+        if not (rs.get('exc') == 'TemplateError' and rs.get('cls') == 'ExpressionError' and rs.get('token') == bad and rs.get('offset') == strict_off):
             ctx.violation('strict compilation does not fail with the ExpressionError of the invalid expression', inp,
-                          expected={'cls': 'ExpressionError', 'token': bad, 'offset': off}, actual=rs)
+                          expected={'cls': 'ExpressionError', 'token': bad, 'offset': strict_off}, actual=rs)
             continue
         if rl.get('exc') == 'TemplateError':
             ctx.violation('non-strict compilation rejects the template at compile time', inp, actual=rl)
